@@ -101,7 +101,7 @@ pub fn oracle_selftest(seed: u64) {
     crate::c17::p_c17_native_plane(x, y);
     crate::c17::p_c17_base_cell(x, y);
     let ns = [1u32, 2, 3, 5, 7, 100, 1000003, (1 << 29) - 1][(r.next() % 8) as usize];
-    { let (px, py) = cdshealpix::proj(lon, lat); let pxa = if px < 0.0 { px + 8.0 } else { px }; if !crate::c11::f4_role(pxa, py) { crate::c11::p_c11_point(ns, lon, lat); } }
+    { let (px, py) = cdshealpix::proj(lon, lat); let pxa = if px < 0.0 { px + 8.0 } else { px }; { let _ = (pxa, py); crate::c11::p_c11_point(ns, lon, lat); } }
     let d = (r.next() % 30) as u8;
     crate::c03::p_c03_point(d, lon, lat);
     crate::c19::p_c19_point(d, lon, lat);
@@ -111,8 +111,7 @@ pub fn oracle_selftest(seed: u64) {
   for d in 0u8..=3 { for h in 0..(12u64 << (2 * d as u32)) { crate::c03::p_c03_cell(d, h, 1, 1023); crate::c03::p_c03_cell(d, h, 1023, 512); } }
   for ns in 1u32..=9 {
     for h in 0..(12 * ns as u64 * ns as u64) { crate::c11::p_c11_center(ns, h); }
-    // (the seam meridians are the role of the open finding F4: not part of the self-test)
-    for k in [1usize, 3, 5, 7].iter() { for la in lats.iter() { if la.abs() < 1.57 { crate::c11::p_c11_neighbourhood(ns, 0.25 * PI * *k as f64, *la, 2); } } }
+    for k in [0usize, 1, 2, 3, 4, 5, 6, 7, 8].iter() { for la in lats.iter() { if la.abs() < 1.57 { crate::c11::p_c11_neighbourhood(ns, 0.25 * PI * *k as f64, *la, 2); } } }
   }
 }
 
@@ -149,4 +148,42 @@ pub fn f4_scan(_seed: u64) {
   println!("f4_scan: {} failing of {} positions", bad, total);
   for m in first.iter() { println!("  {}", m); }
   assert!(bad == 0, "f4_scan: {} failing positions", bad);
+}
+
+
+/// Scan of hash_with_dxdy (nested) on and next to the base-cell borders of the polar caps, the poles and the cap-base corners.
+pub fn c03_scan(_seed: u64) {
+  let mut bad = 0u64;
+  let mut total = 0u64;
+  let mut first: Vec<String> = Vec::new();
+  for &d in [0u8, 1, 2, 5, 13, 29].iter() {
+    for k in -8i64..=12 {
+      let l0 = 0.25 * PI * k as f64;
+      let mut lats: Vec<f64> = Vec::new();
+      for step in 0..=40 { let a = T + (HALF_PI - T) * (step as f64 / 40.0); lats.push(a); lats.push(-a); }
+      for j in 0..6 { lats.push(nudge(HALF_PI, -j)); lats.push(nudge(-HALF_PI, -j)); lats.push(nudge(T, j - 3)); lats.push(nudge(-T, j - 3)); }
+      lats.push(0.0); lats.push(0.3); lats.push(-0.3);
+      for &la0 in lats.iter() {
+        for dl in -1i64..=1 {
+          let la = nudge(la0, dl);
+          if la.abs() > HALF_PI { continue; }
+          for dk in -3i64..=3 {
+            let lo = nudge(l0, dk);
+            total += 1;
+            let r = std::panic::catch_unwind(|| crate::c03::p_c03_point(d, lo, la));
+            if let Err(e) = r {
+              bad += 1;
+              if first.len() < 14 {
+                let msg = if let Some(s) = e.downcast_ref::<String>() { s.clone() } else if let Some(s) = e.downcast_ref::<&str>() { s.to_string() } else { "panic".to_string() };
+                first.push(msg[..msg.len().min(300)].to_string());
+              }
+            }
+          }
+        }
+      }
+    }
+  }
+  println!("c03_scan: {} failing of {} positions", bad, total);
+  for m in first.iter() { println!("  {}", m); }
+  assert!(bad == 0, "c03_scan: {} failing positions", bad);
 }
